@@ -186,7 +186,7 @@ class C04(Prop):
             p2 = sorted((cv(r["loads_min"][0]), cv(r["loads_max"][0])) for r in rows if r["run_index"][0] == 2)
             want = hcm.periodic_rainflow(s)
             if p2 != want:
-                return (f"pass-2 load ranges {p2} != closed cycles of the repeated sequence {want} (sequence {s})", junction_failure_class(s))
+                return (f"pass-2 load ranges {p2} != closed cycles of the repeated sequence {want} (sequence {s})", junction_failure_class(s, p2, law))
             for r in rows:
                 if not r["is_closed_hysteresis"][0]:
                     if r["run_index"][0] != 1:
@@ -274,8 +274,16 @@ def junction_class(s):
     return ",".join(tags)
 
 
-def junction_failure_class(s):
+def junction_failure_class(s, p2=None, law="linear"):
     if not hcm.first_run_flushes(s):
-        # open known finding: the first run defers its last sample to the second run
+        # open known finding: the first run defers its last sample to the second run.  It is the recorded finding only if the
+        # pass-2 hystereses are exactly those the documented mechanism yields (reference procedure fed the way the code feeds
+        # its two runs, deferred sample included); anything else on such a sequence is a different failure
+        if p2 is not None and all(float(x) == int(x) for x in s):
+            t1, t2 = hcm.ref_feed([int(x) for x in s])
+            recs, _ = hcm.ref_guideline(hcm.RefLaw(law), t1, t2)
+            mech = sorted((r[2], r[3]) for r in recs if r[0] == 2)
+            if sorted(p2) != mech:
+                return "pass2-not-periodic-rainflow"
         return "first-run-defers-last-sample"
     return "junction-last-not-periodic-reversal" if not last_is_periodic_reversal(s) else "pass2-not-periodic-rainflow"
